@@ -1,11 +1,14 @@
 mod common;
 mod c14;
+mod store;
+mod c01;
 
 fn main() {
     std::panic::set_hook(Box::new(|_| {}));
     let args = common::parse_args();
     match args.prop.as_str() {
         "C14" => c14::run(&args),
+        "C01" => c01::run(&args),
         x => {
             eprintln!("unknown property {}", x);
             std::process::exit(2);
